@@ -575,6 +575,9 @@ class Server(BaseComponent):
         if sock in self._buffers:
             del self._buffers[sock]
 
+        if sock in self._closeq:
+            self._closeq.remove(sock)
+
         if sock in self._clients:
             self._clients.remove(sock)
         else:
@@ -601,6 +604,8 @@ class Server(BaseComponent):
             socks = [sock]
 
         for sock in socks:
+            if sock is None or (sock != self._sock and sock not in self._clients):
+                continue  # already disconnected: nothing to close, keep no state
             if not self._buffers[sock]:
                 self._close(sock)
             elif sock not in self._closeq:
@@ -642,6 +647,8 @@ class Server(BaseComponent):
 
     @handler('write')
     def write(self, sock, data):
+        if sock not in self._clients:
+            return  # late write to a disconnected socket
         if not self._poller.isWriting(sock):
             self._poller.addWriter(self, sock)
         self._buffers[sock].append(data)
@@ -736,9 +743,15 @@ class Server(BaseComponent):
 
     @handler('_write', priority=1)
     def _on_write(self, sock):
+        if sock not in self._clients:
+            return
+
         if self._buffers[sock]:
             data = self._buffers[sock].popleft()
             self._write(sock, data)
+
+        if sock not in self._clients:
+            return  # the send failed and the socket was disconnected
 
         if not self._buffers[sock]:
             if sock in self._closeq:
